@@ -138,6 +138,18 @@ def untyped_program(rng, ndecls=None):
     return prog
 
 
+def small_valid_program(rng, max_tokens=140):
+    """(origin, prog) with 1..max_tokens tokens"""
+    while True:
+        if rng.random() < 0.5:
+            o, prog = "typed", splgen.well_typed_program(rng, ndecls=rng.choice([1, 1, 2, 3]))[0]
+        else:
+            o, prog = "untyped", untyped_program(rng, ndecls=rng.choice([1, 1, 2, 3]))
+        n = len(splgen.flatten(prog))
+        if 0 < n <= max_tokens:
+            return o, prog
+
+
 def any_valid_program(rng):
     """(origin, prog): half well-typed (splgen), half untyped"""
     if rng.random() < 0.5:
@@ -149,10 +161,11 @@ def any_valid_program(rng):
 # annotated flattening: role, owner and nesting depth of every token
 
 class Tok:
-    __slots__ = ("s", "role", "lead", "leaf", "depth", "ctx")
+    __slots__ = ("s", "role", "lead", "leaf", "depth", "ctx", "decl")
 
     def __init__(self, s, role, depth, lead=None, leaf=None, ctx=None):
         self.s, self.role, self.depth, self.lead, self.leaf, self.ctx = s, role, depth, lead, leaf, ctx
+        self.decl = None
 
 
 def _leaf(spellings, leaf, depth, ctx=None):
@@ -196,9 +209,19 @@ def _an_branch(s, depth, ctx):
     return _an_stmt(s, depth + 1, ctx)
 
 
-def annotate(prog, multiline_params=None):
+def annotate(prog, gap_comments=None):
     """list of Tok for the whole program plus the final pseudo token `eof`.
-    multiline_params: set of declaration indices whose parameters are printed one per line (depth 1)"""
+    gap_comments ({gap: [bodies]}): a parameter list with a comment inside (or in front of) one of its parameters is
+    printed one parameter per line, one level deep - like a list of more than three parameters"""
+    toks = _annotate(prog, set())
+    if gap_comments:
+        ml = {toks[g].decl for g in gap_comments if gap_comments[g] and toks[g].leaf == "param"}
+        if ml:
+            toks = _annotate(prog, ml)
+    return toks
+
+
+def _annotate(prog, multiline_params):
     out = []
     for di, d in enumerate(prog):
         if d[0] == "type":
@@ -208,7 +231,7 @@ def annotate(prog, multiline_params=None):
             out += [Tok(t, "type.texpr", 0) for t in splgen.fl_texpr(d[2])]
             out.append(Tok(";", "type.semic", 0))
             continue
-        ml = (len(d[2]) > 3) or (multiline_params is not None and di in multiline_params)
+        ml = (len(d[2]) > 3) or (di in multiline_params)
         out += [Tok("proc", "proc.kw", 0, lead="proc"), Tok(d[1], "proc.name", 0), Tok("(", "proc.lparen", 0)]
         for i, (r, n, t) in enumerate(d[2]):
             if i:
@@ -220,6 +243,11 @@ def annotate(prog, multiline_params=None):
         for s in d[4]:
             out += _an_stmt(s, 1, "body")
         out.append(Tok("}", "proc.rcurly", 0))
+    di = -1
+    for t in out:
+        if t.lead in ("type", "proc"):
+            di += 1
+        t.decl = di
     out.append(Tok("", "eof", 0))
     return out
 
@@ -264,6 +292,8 @@ def layout(spell, rng, gap_comments=None, newline="\n", dense=False, trailing=Tr
         gap += ws
         if t is not None and not gap and splgen.needs_sep(prev, t):
             gap = " "
+        if gap.startswith("/") and prev.endswith("/"):
+            gap = " " + gap          # `/` followed by a comment must not become `///...`
         out.append(gap)
         if t is not None:
             out.append(t)
@@ -278,19 +308,11 @@ COMMENT_BODIES = ["", " x", " note", " TODO: fix", "// nested", " proc main() {}
 # ------------------------------------------------------------------------------------------------
 # LSP text edits (independent python model: UTF-16 columns, lines end with \n, \r\n or \r)
 
+_EOL = re.compile(r"\r\n|\r|\n")
+
+
 def line_starts(t):
-    starts = [0]
-    i = 0
-    while i < len(t):
-        c = t[i]
-        if c == "\n":
-            starts.append(i + 1)
-        elif c == "\r":
-            if i + 1 < len(t) and t[i + 1] == "\n":
-                i += 1
-            starts.append(i + 1)
-        i += 1
-    return starts
+    return [0] + [m.end() for m in _EOL.finditer(t)]
 
 
 def offset_of(t, line, col):
@@ -464,10 +486,11 @@ def dec_model(line):
     return ("fuel-or-bad", n[:3])
 
 
-def correspondence(ctx, exe, judge, jobs, origin, kernel_max_len=160, kernel_n=120, workers=8):
+def correspondence(ctx, exe, judge, jobs, origin, kernel_max_len=160, kernel_n=120, workers=8, obs=None):
     """Runs every job through the server and the extracted judge, a sample of the short ones through the kernel
     judge.  Returns dict(obs, model, mismatches=[index], kernel_cases, kernel_fail=[...], panics=[index])."""
-    obs = format_many(exe, jobs, workers=workers, tag="c" + ctx.pid)
+    if obs is None:
+        obs = format_many(exe, jobs, workers=workers, tag="c" + ctx.pid)
     model = common.run_lines(judge, [judge_cmd(*j) for j in jobs])
     mism = []
     for i, (o, m) in enumerate(zip(obs, model)):
@@ -572,3 +595,134 @@ def option_settings():
 
 def unit_of(insert_spaces, tab_size):
     return " " * tab_size if insert_spaces else "\t"
+
+
+# ------------------------------------------------------------------------------------------------
+# pieces shared by the three checks
+
+def setup(ctx):
+    """builds server, judge and harness; on failure records the violation and returns None"""
+    exe, log = common.build_server()
+    if exe is None:
+        ctx.violation(dict(kind="build-failure", what="lsp4spl does not build", log=log[-3000:]), no_input=True)
+        return None
+    judge, jlog = common.build_judge()
+    hdir, hlog = common.build_harness()
+    if judge is None or hdir is None:
+        ctx.violation(dict(kind="build-failure", what="judge or harness does not build", log=(jlog or hlog)[-3000:]), no_input=True)
+        return None
+    return exe, judge, os.path.join(hdir, "dump")
+
+
+def leading_gaps(toks):
+    """gap indices in leading positions (in front of a declaration, parameter, variable declaration or statement)
+    whose comments the formatter is expected to keep"""
+    return [i for i, t in enumerate(toks) if t.lead is not None]
+
+
+def valid_doc(rng, comment_gaps="any", pcomment=0.12, prog=None, origin=None):
+    """one syntactically valid document: dict(origin, prog, toks, text, gap_comments, newline)"""
+    if prog is None:
+        origin, prog = any_valid_program(rng)
+    toks = annotate(prog)
+    sp = spellings(toks)
+    if comment_gaps == "none":
+        cand = []
+    elif comment_gaps == "leading":
+        cand = leading_gaps(toks)
+    else:
+        cand = list(range(len(sp) + 1))
+    gc = {}
+    p = rng.choice([0, pcomment, pcomment, 3 * pcomment])
+    for g in cand:
+        if rng.random() < p:
+            gc[g] = [rng.choice(COMMENT_BODIES) for _ in range(rng.choice([1, 1, 1, 2]))]
+    nl = rng.choice(["\n", "\n", "\r\n"])
+    text = layout(sp, rng, gc, newline=nl, dense=rng.random() < 0.15, trailing=rng.random() < 0.8)
+    return dict(origin=origin, prog=prog, toks=annotate(prog, gc), text=text, gap_comments=gc, newline=nl)
+
+
+def malformed_doc(rng):
+    r = rng.random()
+    if r < 0.55:
+        _, prog = any_valid_program(rng)
+        toks = splgen.damage(splgen.flatten(prog), rng, k=rng.choice([1, 1, 1, 2, 3, 6]))
+        return "damaged", splgen.render(toks, rng, comments=rng.choice([0, 0.1]), newline=rng.choice(["\n", "\n", "\r\n"]))
+    if r < 0.9:
+        return "soup", splgen.token_soup(rng)
+    return "unicode", splgen.random_unicode(rng)
+
+
+def report_correspondence(ctx, corr, jobs, labels, have_failing_input, proved, what):
+    """DESIGN 4: a broken tie (correspondence or proof) without a failing input is still a violation"""
+    if have_failing_input:
+        return
+    if corr["confirmed"] or corr["kernel_fail"]:
+        if corr["confirmed"]:
+            i, seen = corr["confirmed"][0]
+            ctx.violation(dict(kind="correspondence", property=ctx.pid, what=what, document=jobs[i][0], insert_spaces=jobs[i][1],
+                               tab_size=jobs[i][2], stream=labels[i], server=[list(map(str, s)) for s in seen][0],
+                               model=list(map(str, dec_model(corr["model"][i]))), mismatches=len(corr["mismatches"])), no_input=True)
+        else:
+            i = corr["kernel_fail"][0]
+            ctx.violation(dict(kind="correspondence", property=ctx.pid, what="kernel judge (vm_compute) disagrees with the server / extracted judge",
+                               document=jobs[i][0], insert_spaces=jobs[i][1], tab_size=jobs[i][2]), no_input=True)
+    elif not proved:
+        ctx.violation(dict(kind="proof", property=ctx.pid, detail=getattr(ctx, "proof_failure", None)), no_input=True)
+
+
+def corr_cov(corr, labels):
+    hist = {}
+    for l in labels:
+        hist[l] = hist.get(l, 0) + 1
+    return {"traces_validated_against_impl": len(labels), "correspondence_stream_histogram": hist,
+            "correspondence_mismatches": len(corr["mismatches"]), "correspondence_mismatches_confirmed": len(corr["confirmed"]),
+            "kernel_judge_cases": corr["kernel_cases"], "kernel_judge_failures": len(corr["kernel_fail"]),
+            "server_deaths_or_timeouts": len(corr["panics"]),
+            "model_panics_predicted": sum(1 for m in corr["model"] if m == "1")}
+
+
+def depth_failures(out_text, lexed, ann, unit):
+    """every line of the formatted text starts with exactly depth x unit, where depth is the nesting depth (from the
+    generator's derivation `ann`) of the first token on the line; a comment line has the depth of the code token that
+    follows it.  Returns a list of (line number, line, expected depth, why)."""
+    code = [t for t in ann if t.role != "eof"]
+    out_code = [t for t in lexed if t["kind"] not in ("Comment", "Eof")]
+    if len(out_code) != len(code):
+        return [(-1, "", -1, "the formatted text has %d code tokens, the program %d" % (len(out_code), len(code)))]
+    b2c = byte_to_char_offsets(out_text)
+    lines = out_text.split("\n")
+    starts = [0]
+    for l in lines[:-1]:
+        starts.append(starts[-1] + len(l) + 1)
+    first = {}
+    k = 0
+    import bisect
+    seq = []
+    for t in lexed:
+        if t["kind"] == "Eof":
+            continue
+        if t["kind"] == "Comment":
+            seq.append((b2c[t["s"]], None))
+        else:
+            seq.append((b2c[t["s"]], k))
+            k += 1
+    for j, (pos, ck) in enumerate(seq):
+        ln = bisect.bisect_right(starts, pos) - 1
+        if ln not in first:
+            if ck is None:
+                nxt = next((c for _, c in seq[j:] if c is not None), None)
+                d = code[nxt].depth if nxt is not None else 0
+            else:
+                d = code[ck].depth
+            first[ln] = d
+    bad = []
+    for ln, l in enumerate(lines):
+        ws = l[:len(l) - len(l.lstrip(" \t"))]
+        if ln not in first:
+            if l != "":
+                bad.append((ln, l, -1, "a line without tokens is not empty"))
+            continue
+        if ws != unit * first[ln]:
+            bad.append((ln, l, first[ln], "leading whitespace %r is not %d x the unit %r" % (ws, first[ln], unit)))
+    return bad
